@@ -221,6 +221,8 @@ class KindWalker:
         self.functions = functions or {}  # module-local helpers to inline
         self.depth = depth
         self.inlined: set[str] = set()
+        self.aliases: dict[str, str] = {}  # local name -> "<token>" whose
+        # .value it holds (`value = token.value`)
 
     # -- public -----------------------------------------------------------------
     def run(self, fn: ast.FunctionDef):
@@ -314,13 +316,28 @@ class KindWalker:
             return env
         if isinstance(st, (ast.Assign, ast.AugAssign, ast.AnnAssign)):
             val = st.value
-            if val is not None:
-                self.expr(val, env)
             targets = st.targets if isinstance(st, ast.Assign) else [st.target]
+            aliasing = isinstance(st, (ast.Assign, ast.AnnAssign)) \
+                and len(targets) == 1 and isinstance(targets[0], ast.Name) \
+                and isinstance(val, ast.Attribute) and val.attr == "value" \
+                and isinstance(val.ctx, ast.Load)
+            if val is not None and not aliasing:
+                self.expr(val, env)
             for t in targets:
                 for n in ast.walk(t):
                     if isinstance(n, ast.Name):
-                        env = self.kill(env, n.id)
+                        self.aliases.pop(n.id, None)
+                        for k_, b_ in list(self.aliases.items()):
+                            if self.root(b_) == n.id:
+                                del self.aliases[k_]
+            if aliasing:
+                # the local stands for the token's value from here on: its
+                # uses are the reads
+                self.aliases[targets[0].id] = ast.unparse(val.value)
+            for t in targets:
+                for n in ast.walk(t):
+                    if isinstance(n, ast.Name):
+                        env = self.kill(env, n.id) if not aliasing else env
                     elif isinstance(n, ast.Attribute) and n.attr == "value":
                         pass
             return env
@@ -447,6 +464,11 @@ class KindWalker:
             base = ast.unparse(node.value)
             self.reads.append(Read(node, base, self.kinds_of(env, base),
                                    *self.role_of(node), self.fn))
+        if isinstance(node, ast.Name) and isinstance(node.ctx, ast.Load) \
+                and node.id in self.aliases:
+            base = self.aliases[node.id]
+            self.reads.append(Read(node, base, self.kinds_of(env, base),
+                                   *self.role_of(node), self.fn))
         for ch in ast.iter_child_nodes(node):
             if isinstance(ch, ast.expr):
                 self.expr(ch, env)
@@ -463,6 +485,11 @@ class KindWalker:
             if node in par.args:
                 return "call-arg", par
         if isinstance(par, ast.BoolOp):
+            return "truth", None
+        if isinstance(par, ast.UnaryOp) and isinstance(par.op, ast.Not):
+            return "truth", None
+        if isinstance(par, (ast.If, ast.While, ast.IfExp)) \
+                and par.test is node:
             return "truth", None
         if isinstance(par, ast.Subscript) and par.value is node:
             return "index-into", par
